@@ -12,7 +12,7 @@ from ..core import Outcome, Partial, violation
 ID = "C19"
 RULE = ("Reactive: exhaustive sequences (length <= 4 quick / 6 thorough) over boundary representatives {0, b-eps, b, b+eps for every "
         "band edge b, 1.0} from every start state, both Annex A tables, plus hypothesis sequences up to 200 values incl. NaN/out-of-range; "
-        "adaptive: drawn parameter sets with delta_min <= delta_max and CBR sequences (local and global variants); gate keeper: drawn "
+        "adaptive: default and drawn parameter sets with delta_min <= delta_max, unstructured CBR sequences (local and global variants) and load phases of up to 700 evaluations (idle until delta saturates, rise, relaxation); gate keeper: drawn "
         "event sequences (packet arrivals with T_on 50 us..5 ms, delta updates, probes) at drawn gaps and at the reference gate-opening "
         "time +- 0..3 ns / +- ms. Oracle: independent reference implementations of clause 5.3 + Annex A, clause 5.4 eq. 1-6 and Annex B "
         "eq. B.1/B.2, plus the direct invariants (|state step| <= 1, convergence within 4 evaluations, delta within bounds, admissions "
@@ -155,8 +155,13 @@ def adaptive_case_s():
             "delta_up_max": st.floats(1e-6, 0.01), "delta_down_max": st.floats(-0.01, -1e-6)})
     default = st.just(None)
     step = st.fixed_dictionaries({"l": st.floats(0, 1) | BAD, "lp": st.floats(0, 1) | BAD, "g": st.none() | st.floats(0, 1), "gp": st.none() | st.floats(0, 1)})
-    return st.fixed_dictionaries({"params": default | st.floats(1e-4, 0.1).flatmap(params),
-                                  "steps": st.lists(step, min_size=1, max_size=120)}).map(
+    # load phases: long stretches at one level (idle long enough to saturate delta at delta_max with the default parameters, then a rise
+    # towards / above the target, then relaxation), besides the unstructured sequences
+    level = st.sampled_from([0.0, 0.05, 0.2, 0.3, 0.5, 0.6, 0.67, 0.68, 0.69, 0.8, 1.0]) | st.floats(0, 1).map(lambda x: round(x, 3))
+    phase = st.tuples(level, st.sampled_from([1, 5, 30, 120, 260])).map(lambda t: [{"l": t[0], "lp": t[0], "g": None, "gp": None}] * t[1])
+    phased = st.lists(phase, min_size=2, max_size=5).map(lambda ll: [x for l in ll for x in l][:700])
+    return st.fixed_dictionaries({"params": default | default | st.floats(1e-4, 0.1).flatmap(params),
+                                  "steps": st.lists(step, min_size=1, max_size=120) | phased}).map(
         lambda c: {"params": c["params"], "steps": [{k: (None if v is None else repr(v)) for k, v in s_.items()} for s_ in c["steps"]]})
 
 
@@ -206,7 +211,7 @@ def run_adaptive(case):
             vs.append(violation(ID, "C19/adaptive-attribute-differs-from-return", "delta attribute %r return %r" % (alg.delta, got)))
         if vs:
             break
-    return Outcome(vs, labels=["adaptive:%s" % ("default" if case["params"] is None else "drawn")], nontrivial=clamps > 0)
+    return Outcome(vs, labels=["adaptive:%s" % ("default" if case["params"] is None else "drawn"), "adaptive-steps:%s" % ("<=120" if len(case["steps"]) <= 120 else ">120")], nontrivial=clamps > 0)
 
 
 def job_adaptive(n, seed):
